@@ -149,6 +149,9 @@ class Acc(object):
             self.count(c)
         if v.status == "inconclusive":
             self.inconclusive += 1
+            L = self.extra.setdefault("inconclusive_cases", [])
+            if isinstance(L, list) and len(L) < 4:
+                L.append(short(repr(sample if sample is not None else case), 300) + " :: " + v.what)
             return
         if v.nontrivial:
             self.sigs.add(v.sig if v.sig is not None else sig64(_canon(case)))
@@ -190,6 +193,10 @@ class Acc(object):
                 self.extra[k] = self.extra.get(k, 0) + val
             elif isinstance(val, set):
                 self.extra.setdefault(k, set()).update(val)
+            elif isinstance(val, list):
+                self.extra.setdefault(k, [])
+                if len(self.extra[k]) < 12:
+                    self.extra[k].extend(val[:4])
             elif isinstance(val, dict):
                 d = self.extra.setdefault(k, {})
                 for kk, vv in val.items():
